@@ -122,7 +122,9 @@ pub fn wrap(out: &mut Out, count: u64) {
         }
         d.x("cancel");
         d.x(&format!("setpid {start}"));
-        for _ in 0..d.rng.range(2, 12) {
+        // Enough id-consuming requests to pass 65535 in every program.
+        let n_requests = d.rng.range(2, 12).max(65536 - start as u64 + 2);
+        for _ in 0..n_requests {
             request(&mut d);
             if d.rng.pct(35) {
                 deliver_some(&mut d, &keep, false);
